@@ -93,3 +93,8 @@ Definition edits_reset (resets : list (string * list string)) (edits : list stri
 (* every query method (transitively) assigns nothing but the cache *)
 Definition queries_pure (writes : list (string * list string)) (queries : list string) : bool :=
   forallb (fun m => subset (lookup m writes) ["_approx_inverse"]) queries.
+
+(* no query mutates in place an object it obtained from the WCS, other than through the listed (benign, idempotent) sources: an
+   attribute-write table cannot see `bb = self.bounding_box; bb[i] = ...` *)
+Definition queries_alias_clean (alias_writes : list (string * list string)) (allowed queries : list string) : bool :=
+  forallb (fun m => subset (lookup m alias_writes) allowed) queries.
